@@ -449,6 +449,40 @@ def stub_commit(cx, ds, **kw):
     ds.committed = True
 
 
+class FixesAfterMerge(FnSpec):
+    file = "ih5/manifest.py"
+    qual = "IH5MFRecord._fixes_after_merge"
+    props = ("C05", "C10")
+
+    def init(self):
+        self.bindings["IH5UBExtManifest"] = ExtClass()
+        self.inline |= {"IH5MFRecord.manifest"}
+
+    def setup(self, cx):
+        r = mfrec(cx)
+        ub = SRef.fresh("IH5UserBlock", "merged_ub")
+        return A(self=r, file=PathVal(z3.String("merged_file")), ub=ub)
+
+    def raises(self, cx, a):
+        g = lambda f: a.ub.py_getattr(cx, f).t  # noqa: E731
+        r = a.self
+        return {"AssertionError": z3.And(r.has_mf, z3.Or(z3.Not(g("ext_present")), g("ext_uuid") != r.old_mf.fields["manifest_uuid"].t))}
+
+    def on_raise(self, cx, a, exc):
+        return [("nothing-written", z3.BoolVal(not [e for e in cx.fx if e[0] == "mfwrite"]), "an inconsistent merged user block writes no manifest")]
+
+    def ensures(self, cx, a, res):
+        r = a.self
+        w = [e for e in cx.fx if e[0] == "mfwrite"]
+        other = [e for e in cx.fx if e[0] in record.WRITE_KINDS and e[0] != "mfwrite"]
+        ok = len(w) == 1
+        return [
+            ("manifest-carried-over-iff-the-source-has-one", z3.BoolVal(ok) == r.has_mf, "the merged container gets a manifest exactly when the source record has one loaded"),
+            ("it-is-the-LOADED-manifest-at-the-merged-containers-canonical-place", z3.And(w[0][1] == MFPATH(a.file.t), w[0][2] == MFBYTES(r.old_mf.fields["manifest_uuid"].t, r.old_mf.fields["manifest_exts"].t)) if ok else z3.Not(r.has_mf), "what is written next to the merged container is the manifest object the source record has loaded (wherever its file lives), so the merged record identifies itself exactly as the source"),
+            ("nothing-else-written", z3.BoolVal(not other and len(w) <= 1), "no other file is touched"),
+        ]
+
+
 def add_manifest(reg):
     reg.set_class_home("IH5MFRecord", "ih5/manifest.py")
     reg.attr_bindings[("IH5Record", "_files")] = lambda cx, o: record.files_of(o)
@@ -483,7 +517,7 @@ def add_manifest(reg):
     reg.method_bindings[("IH5MFRecord", "_create")] = stub_create
     reg.method_bindings[("IH5MFRecord", "commit_patch")] = stub_commit
     reg.attr_bindings[("IH5MFRecord", "_has_writable")] = lambda cx, o: SBool(z3.BoolVal(not getattr(o, "committed", False)))
-    specs = [MFCommit(), MFOpen(), MFCheckUblock(), MFMerge(), CreateStub()]
+    specs = [MFCommit(), MFOpen(), MFCheckUblock(), MFMerge(), CreateStub(), FixesAfterMerge()]
     for s in specs:
         reg.add(s)
     return specs
